@@ -112,8 +112,15 @@ pub fn run(ctx: &Ctx) -> Report {
         let junk = r.chance(1, 2);
         let mut stream = bytes.clone();
         if junk {
-            let jl = 1 + r.usize(20);
-            stream.extend_from_slice(&r.bytes(jl));
+            if r.chance(1, 2) {
+                let jl = 1 + r.usize(20);
+                stream.extend_from_slice(&r.bytes(jl));
+            } else {
+                // what follows in a real stream: more messages (of the same kind one time in three)
+                let next = if r.chance(1, 3) { bytes.clone() } else { gen(&mut r).0 };
+                stream.extend_from_slice(&next);
+                if r.chance(1, 2) { stream.extend_from_slice(&next); }
+            }
         }
         let res = catch(|| {
             let mut crs = Cursor::new(&stream[..]);
